@@ -132,6 +132,7 @@ def run_shard(spec, R):
             R.count("integer_typed_origin")
         cs = img.coordinatesystem
         shape = tuple(desc["shape"])
+        arr_at_start = img.img.copy()
         for m in range(dim):
             c, s = CO.MATRIX[dim][m]
             name = CO.NAMES_C[c]
@@ -178,6 +179,12 @@ def run_shard(spec, R):
                 if ok_neg:
                     R.check(np.array_equal(by_neg.img, want), "slice_is_take_along_axis", {"fn": "Image.slice", "dim": dim, "index": m - dim, "t": t, "shape": list(shape), "what": "negative matrix axis accepted"})
                 R.count("negative_axis_tried")
+                if not ok_neg:
+                    # a refused request leaves the image as it was (its data are what later slices are compared with)
+                    intact = img.img.shape == arr_at_start.shape and np.array_equal(img.img, arr_at_start)
+                    R.check(intact, "image_untouched_by_refused_request", {"fn": "Image.slice", "dim": dim, "index": m - dim, "t": t, "shape": list(shape), "shape_after": list(img.img.shape)})
+                    if not intact:
+                        img.img = arr_at_start.copy()
                 # one reduction object in slice mode serves several images (here: the same image twice, by name and index)
                 if dim > 1:
                     for ax_arg in (m, name):
